@@ -129,8 +129,10 @@ def write_new_batch(buffer: IO[bytes], new_batch: NewRecordBatch) -> None:
     base_offset = first_record.offset
     last_offset_delta = i32(last_record.offset - base_offset)
     base_timestamp = i64(_timestamp_millis(first_record.timestamp))
+    # Compare instants, not datetime objects: datetimes sharing a tzinfo compare by
+    # wall clock time, which is ambiguous in the repeated hour at the end of DST.
     max_timestamp = i64(
-        _timestamp_millis(max(record.timestamp for record in new_batch.records))
+        max(_timestamp_millis(record.timestamp) for record in new_batch.records)
     )
 
     with io.BytesIO() as crc_buffer:
